@@ -36,6 +36,10 @@ extern int gh_prior_kept;              /* the points already in lcs on entry are
 void gh_rec_contract(int a0, int a1, int b0, int b1, int ses_is_empty);
 void w_compute_diff7(void);
 void w_compute_diff9(int a0, int a1, int b0, int b1, int prior);
+/* what a forwarding overload passed to its callee */
+extern int fw_calls, fw_tag, fw_has_base, fw_a_base, fw_a_begin, fw_a_end, fw_b_base, fw_b_begin, fw_b_end;
+extern int fw_lcs_same, fw_lcs_empty, fw_ses_same, fw_len_zero, fw_outputs_untouched;
+void w_forward(int which, int a0, int a1, int b0, int b1);
 #ifdef __cplusplus
 }
 #endif
